@@ -82,6 +82,15 @@ Common(e, c, isProbeEnd) ==
        <<"AdmittedWhenNoSessionOnTopic",
            (Line.e = "call" /\ ObsLiveOn(topic) = {} /\ ~(kind = "kg" /\ \E x \in olive : x[2] = "kg")) => Line.res \notin {"refused"}>>,
        <<"LaterCallSucceeds", isProbeEnd => (ret /\ Line.res = "ok")>>,
+       \* the moment a call returns nothing of its session is registered any more (whatever still runs on its behalf), unless
+       \* another live call owns the topic
+       <<"NoResidueAtReturn",
+           (ret /\ {x \in olive2 : x[3] = topic} = {}) =>
+              \* (the entry of the SECOND synchronisation's own topic is removed by the goroutine that runs that synchronisation, when it
+              \*  returns: with a synchroniser that outlives its context it is there a little longer; its consequences are judged by
+              \*  LaterCallSucceeds / LateTrafficNoEffect)
+              LET left == (Rng(Line.tables.syncs) \cup Rng(Line.tables.rbcs) \cup Rng(Line.tables.cls)) \cap {topic}
+              IN left = {}>>,
        \* --- C11
        <<"CancelReturnsError", Line.e = "cancel" => (ret /\ Line.res \in {"ctx", "err"})>>,
        <<"FailureReturnsError", (ret /\ mres \in {"err", "ctx"}) => Line.res # "ok">>,
